@@ -70,22 +70,46 @@ func (r ReferenceStorage) Reference(n plumbing.ReferenceName) (*plumbing.Referen
 	return ref, err
 }
 
-// IterReferences honors the storer.ReferenceStorer interface.
+// IterReferences honors the storer.ReferenceStorer interface. References set
+// in the transaction shadow the ones in the base storage with the same name,
+// and references removed in the transaction are not listed.
 func (r ReferenceStorage) IterReferences() (storer.ReferenceIter, error) {
-	baseIter, err := r.ReferenceStorer.IterReferences()
-	if err != nil {
-		return nil, err
-	}
-
 	temporalIter, err := r.temporal.IterReferences()
 	if err != nil {
 		return nil, err
 	}
 
-	return storer.NewMultiReferenceIter([]storer.ReferenceIter{
-		baseIter,
-		temporalIter,
-	}), nil
+	var refs []*plumbing.Reference
+	seen := make(map[plumbing.ReferenceName]struct{})
+	err = temporalIter.ForEach(func(ref *plumbing.Reference) error {
+		refs = append(refs, ref)
+		seen[ref.Name()] = struct{}{}
+		return nil
+	})
+	if err != nil {
+		return nil, err
+	}
+
+	baseIter, err := r.ReferenceStorer.IterReferences()
+	if err != nil {
+		return nil, err
+	}
+
+	err = baseIter.ForEach(func(ref *plumbing.Reference) error {
+		if _, shadowed := seen[ref.Name()]; shadowed {
+			return nil
+		}
+		if _, deleted := r.deleted[ref.Name()]; deleted {
+			return nil
+		}
+		refs = append(refs, ref)
+		return nil
+	})
+	if err != nil {
+		return nil, err
+	}
+
+	return storer.NewReferenceSliceIter(refs), nil
 }
 
 // CountLooseRefs honors the storer.ReferenceStorer interface.
